@@ -105,6 +105,8 @@ _chain("C17", ["param_change_authorised", "change_only_that_key", "dao_authorise
 _chain("C07", ["slashAmount_exact", "slash_exact", "slash_noop", "doublesign_burns_all", "evidence_expired_ignored", "evidence_refused"])
 _chain("C08", ["window_step", "window_init", "counter_is_window_count", "window_frame", "minSigned_rounding"])
 
+_chain("C10", ["fees_to_proposer", "awards_minted_once", "begin_rewards", "award_accumulates", "empty_queue_mints_nothing"])
+
 # development-only entry: the chain family with all monitors, no Lean module (not in MANIFEST)
 PROPS["XCHAIN"] = {
     "lean_modules": [], "namespaces": [],
@@ -115,6 +117,13 @@ PROPS["XCHAIN"] = {
 NOT_APPLICABLE = {}
 
 MANIFEST_TEXT = {
+    "C10": {"text": "Lean theorems over the rewards model: all collected fees go in full to the recorded proposer when it is a known validator, else stay "
+                    "in the pos module account, and nothing else moves; every queued award is minted exactly once (each address gains exactly its "
+                    "queued sum, supply grows by the total, queue empty afterwards, an empty queue mints nothing); BeginBlock as a whole changes every "
+                    "ordinary account by exactly award + fee share. Tied by differential runs with 0-8 fee-paying txs per block, known/unknown "
+                    "proposers, repeated awards.",
+            "note": "single fee denomination in the model; the doubled mint found here is fixed and recorded",
+            "technique": "Lean 4 proof over executable model + differential correspondence"},
     "C07": {"text": "Lean theorems over the slashing model: the slash amount is exactly trunc(p*10^6*f); a slash removes exactly min(that, stake) from "
                     "the validator, the pool and the supply and from nobody else, force-unstaking and burning the remainder when it falls below the "
                     "minimum; confirmed double-sign evidence inside the window burns the entire stake and tombstones; expired evidence changes nothing; "
